@@ -626,8 +626,8 @@ class TrenchWriter(Writer):
 
             for nbox, (i_trc, trench) in list(itertools.product(range(column.nboxz), list(enumerate(column)))):
                 # load filenames (wall/floor)
-                wall_filename = f'trench{i_trc + 1:03}_wall.pgm'
-                floor_filename = f'trench{i_trc + 1:03}_floor.pgm'
+                wall_filename = f'trench{i_trc + 1:03}_WALL.pgm'
+                floor_filename = f'trench{i_trc + 1:03}_FLOOR.pgm'
                 wall_path = pathlib.Path(column.base_folder) / f'trenchCol{index + 1:03}' / wall_filename
                 floor_path = pathlib.Path(column.base_folder) / f'trenchCol{index + 1:03}' / floor_filename
 
